@@ -213,4 +213,185 @@ example : (Enc.octetString (C12.tagOf 0 19) (.prim [0x41, 0x31])).write .der = .
 example : runG0 (takeValueIf ⟨.unbounded, .der, 0⟩ (C12.tagOf 0 19) (RS.fromContent .printable 4))
     (St [0x13, 0x01, 0x2a] none) = .error .content := by rfl
 
+/-! ### the untagged readers -/
+
+/-- whenever an untagged read returns a value, the source started with a complete identifier of a
+    valid, non-end-of-contents tag -/
+theorem untagged_some_ident {α : Type} (c : Cons) (op : Tag → Content → Prog (α × Content)) (g : G0)
+    (hf : g.frames = []) (a : α) (c' : Cons) (g' : G0)
+    (h : runG0 (processNextValue c none op) g = .ok ((some a, c'), g')) :
+    ∃ id k, readIdent g.view = some (id, k) ∧ TagOK id.cls id.num := by
+  rw [pnv_eq c op g hf] at h
+  unfold pnvF headerF at h
+  by_cases h1 : c.state = .done
+  · simp [h1] at h
+  · by_cases h2 : c.state = .definite ∧ g.limit = none
+    · simp [h1, h2] at h
+    · by_cases h3 : c.state = .definite ∧ g.limit = some 0
+      · simp [h1, h3] at h
+      · by_cases h4 : c.state = .unbounded ∧ g.view = []
+        · simp [h1, h4] at h
+        · simp only [h1, h2, h3, h4, if_false] at h
+          cases hr : readIdent g.view with
+          | none => rw [hr] at h; cases h
+          | some r =>
+            obtain ⟨id, k⟩ := r
+            rw [hr] at h
+            simp only at h
+            obtain ⟨b1, b2, _⟩ := C12.readIdent_bounds _ id k hr
+            refine ⟨id, k, rfl, b1, b2, ?_⟩
+            intro ⟨e1, e2⟩
+            have he : isEocIdent id = true := by simp [isEocIdent, e1, e2]
+            cases hl : readLen c.mode.isBer (g.adv k).view with
+            | none => rw [hl] at h; cases h
+            | some r2 =>
+              obtain ⟨len?, kl⟩ := r2
+              rw [hl] at h
+              simp only [bodyF, he, if_true] at h
+              split at h
+              · split at h
+                · cases h
+                · split at h
+                  · cases h
+                  · simp at h
+              · cases h
+
+/-- **the mandatory untagged readers (`take_value`, `take_primitive`, `take_constructed`) are
+    DER-canonical** against an encoder `enc` if, for every tag, the tag-selective reader with the
+    closure applied to that tag is -/
+theorem canon_untagged {α : Type} (op : Tag → Content → Prog (α × Content)) (enc : α → Enc)
+    (h : ∀ cls num, TagOK cls num →
+      Canon (fun c => mandatory (processNextValue c (some (C12.tagOf cls num)) (fun _ => op (C12.tagOf cls num)))) enc) :
+    Canon (fun c => mandatory (processNextValue c none op)) enc := by
+  intro c d lim v c' g' hm hr
+  have hr0 := hr
+  rw [mandatory_run] at hr
+  cases hp : runG0 (processNextValue c none op) (St d lim) with
+  | error e => rw [hp] at hr; cases hr
+  | ok r =>
+    obtain ⟨⟨a?, c1⟩, g1⟩ := r
+    rw [hp] at hr
+    cases a? with
+    | none => cases hr
+    | some a =>
+      obtain ⟨id, k, hri, ht⟩ := untagged_some_ident c op (St d lim) rfl a c1 g1 hp
+      obtain ⟨cls, b, num⟩ := id
+      apply h cls num ht c d lim v c' g' hm
+      rw [mandatory_run, ← C04b.untagged_eq c cls num ht.hc ht.hn op (St d lim) rfl b k hri, ← mandatory_run]
+      exact hr0
+
+/-- `take_value` with a closure choosing by tag (a CHOICE): canonical if every alternative is -/
+theorem canon_takeValue {α : Type} (op : Tag → Content → Prog (α × Content)) (enc : α → Enc)
+    (h : ∀ cls num, TagOK cls num → Canon (fun c => takeValueIf c (C12.tagOf cls num) (op (C12.tagOf cls num))) enc) :
+    Canon (fun c => takeValue c op) enc :=
+  canon_untagged op enc h
+
+/-! non-vacuity: the CHOICE { INTEGER, BOOLEAN } of C04b, read with `take_value` -/
+
+theorem canon_of_never {β : Type} (dec : Cons → Prog (β × Cons)) (enc : β → Enc)
+    (h : ∀ c d lim r, runG0 (dec c) (St d lim) ≠ .ok r) : Canon dec enc :=
+  fun c d lim v c' g' _ hr => absurd hr (h c d lim _)
+
+theorem leafCanon_map {α β : Type} (p : Prog α) (f : α → β) (pcOf : β → PC) (h : LeafCanon p (fun a => pcOf (f a))) :
+    LeafCanon (do let a ← p; pure (f a)) pcOf := by
+  intro cnt tail v g hr
+  rw [C04.primRun_unfold] at hr
+  simp only [runG0_bind, runG0_pure] at hr
+  cases hp : runG0 p (St (cnt ++ tail) (some cnt.length)) with
+  | error e => rw [hp] at hr; cases hr
+  | ok r =>
+    obtain ⟨a, g1⟩ := r
+    rw [hp] at hr
+    simp only at hr
+    cases hx : runG0 limitedExhausted g1 with
+    | error e => rw [hx] at hr; cases hr
+    | ok r2 =>
+      obtain ⟨u, g2⟩ := r2
+      rw [hx] at hr
+      simp only [Except.ok.injEq, Prod.mk.injEq] at hr
+      have := h cnt tail a g2 (by rw [C04.primRun_unfold, hp]; simp only; rw [hx])
+      rw [← hr.1]; exact this
+
+def choicePC : Int ⊕ Bool → PC
+  | .inl i => .int .i16 i
+  | .inr b => .bool b
+
+/-- the encoder of the decoded CHOICE value: the alternative that was read, under its own tag -/
+def choiceEnc : Int ⊕ Bool → Enc
+  | .inl i => .prim (C12.tagOf 0 2) (.int .i16 i)
+  | .inr b => .prim (C12.tagOf 0 1) (.bool b)
+
+theorem primRun_map_inv {α β : Type} (p : Prog α) (f : α → β) (cnt tail : Bytes) (v : β) (g : G0)
+    (h : C14.primRun (do let a ← p; pure (f a)) cnt tail = .ok (v, g)) :
+    ∃ a, v = f a ∧ C14.primRun p cnt tail = .ok (a, g) := by
+  rw [C04.primRun_unfold] at h
+  simp only [runG0_bind, runG0_pure] at h
+  cases hp : runG0 p (St (cnt ++ tail) (some cnt.length)) with
+  | error e => rw [hp] at h; cases h
+  | ok r =>
+    obtain ⟨a, g1⟩ := r
+    rw [hp] at h
+    simp only at h
+    cases hx : runG0 limitedExhausted g1 with
+    | error e => rw [hx] at h; cases h
+    | ok r2 =>
+      obtain ⟨u, g2⟩ := r2
+      rw [hx] at h
+      simp only [Except.ok.injEq, Prod.mk.injEq] at h
+      refine ⟨a, h.1.symm, ?_⟩
+      rw [C04.primRun_unfold, hp]
+      simp only
+      rw [hx, h.2]
+
+/-- one alternative of a CHOICE: read by `take_value_if(tag, |prim| p.map(f))`, re-encoded under
+    that tag -/
+theorem canon_alt {α β : Type} (cls num : Nat) (ht : TagOK cls num) (p : Prog α) (hp : W p) (f : α → β)
+    (pcOf : α → PC) (hl : LeafCanon p pcOf) (enc : β → Enc)
+    (henc : ∀ a, enc (f a) = .prim (C12.tagOf cls num) (pcOf a)) :
+    Canon (fun c => takeValueIf c (C12.tagOf cls num)
+      (asPrimitive (fun md => do let a ← (do let a ← p; pure (f a) : Prog β); pure (a, md)))) enc := by
+  intro c d lim v c' g' hm hr
+  have hw : W (do let a ← p; pure (f a) : Prog β) := by uses
+  obtain ⟨cnt, tail, h1, h2, h3, h4, h5, h6⟩ := der_prim_framing c hm cls num ht _ hw d lim v c' g' hr
+  obtain ⟨a, rfl, h7⟩ := primRun_map_inv p f cnt tail v _ h6
+  obtain ⟨hc, hi⟩ := hl cnt tail a _ h7
+  subst hc
+  rw [henc]
+  refine ⟨hdrOctets cls false num (pcOf a).write.length ++ (pcOf a).write, tail,
+    write_prim_eq .der cls num ht _ hi h2, by simp only [C06.IntsOK]; exact hi, h1, h3, ?_, ?_⟩
+  · rw [h4, List.length_append]
+  · intro l hl'; rw [List.length_append]; exact h5 l hl'
+
+theorem choice_canonical : Canon (fun c => takeValue c C04b.choiceOp) choiceEnc := by
+  apply canon_takeValue
+  intro cls num ht
+  by_cases h2 : C12.tagOf cls num = C12.tagOf 0 2
+  · obtain ⟨rfl, rfl⟩ := C12.tagOf_inj cls num 0 2 ht.hc (by omega) ht.hn (by omega) h2
+    have e : C04b.choiceOp (C12.tagOf 0 2) = asPrimitive (fun md => do let a ← C04b.intAlt; pure (a, md)) := by
+      simp [C04b.choiceOp]
+    rw [e]
+    exact canon_alt 0 2 ht (toInt .i16) (w_toInt .i16) Sum.inl (fun i => .int .i16 i) (leaf_int_canonical .i16)
+      choiceEnc (fun _ => rfl)
+  · by_cases h1 : C12.tagOf cls num = C12.tagOf 0 1
+    · obtain ⟨rfl, rfl⟩ := C12.tagOf_inj cls num 0 1 ht.hc (by omega) ht.hn (by omega) h1
+      have e : C04b.choiceOp (C12.tagOf 0 1) = asPrimitive (fun md => do let a ← C04b.boolAlt; pure (a, md)) := by
+        have : ¬ C12.tagOf 0 1 = C12.tagOf 0 2 := by decide
+        simp [C04b.choiceOp, this]
+      rw [e]
+      exact canon_alt 0 1 ht (toBool .der) (w_toBool .der) Sum.inr (fun b => .bool b) leaf_bool_canonical
+        choiceEnc (fun _ => rfl)
+    · have e : C04b.choiceOp (C12.tagOf cls num) = fun _ => Prog.contentErr := by
+        simp [C04b.choiceOp, h1, h2]
+      rw [e]
+      apply canon_of_never
+      intro c d lim r hr
+      unfold takeValueIf at hr
+      rw [mandatory_run, C09.pnvE_eq c cls num ht.hc ht.hn _ (St d lim) rfl] at hr
+      unfold C09.pnvE at hr
+      have hce : ∀ (t : Tag) (k : Content) (g : G0), runG0 ((fun _ => Prog.contentErr : Content → Prog ((Int ⊕ Bool) × Content)) k) g
+          = .error .content := fun _ _ _ => rfl
+      repeat' (first | (split at hr) | (cases hr))
+      all_goals (rename_i hb; unfold bodyF at hb; simp only [runG0, Prog.contentErr] at hb)
+      all_goals (repeat' (first | (split at hb) | (cases hb)))
+
 end Bcder.Props.C05b
